@@ -32,7 +32,7 @@ def _primary_aliases(func):
     return res
 
 
-def c11a(tree, ob):
+def c11a(tree, ob, only=None):
     cg = CallGraph(tree, [AGENT, UTIL])
     root = tree.func(AGENT, Q)
     reach = cg.reachable_from(root)
@@ -64,6 +64,9 @@ def c11a(tree, ob):
                     continue
                 nsites += 1
                 fld = t.attr
+                if only and fld not in only:
+                    ob.site(rel, node, 'primary write {} (not report-relevant)'.format(src(t)))
+                    continue
                 fv = FuncView(tree, rel, qual)
                 facts = fv.facts(node) or frozenset()
                 # a guard "<field> is None" on an endpoint-ID field cannot hold for a decoded bundle (EIDs decode to text)
